@@ -56,11 +56,11 @@ def seeded():
 def status():
     man = json.load(open(os.path.join(HERE, "MANIFEST.json")))
     claimed = {c["property_id"] for c in man["checks"]}
-    rows = ["| prop | claimed | theorems in Props | Coq lines (Models+Proofs+Props) | driver lines | ties |", "|---|---|---|---|---|---|"]
+    rows = ["| prop | claimed | statements in Props | Coq lines (Models+Proofs+Props) | driver lines | ties | quick tier (last committed evidence): cases / distinct non-trivial / wall s |", "|---|---|---|---|---|---|---|"]
     for l in open(os.path.join(HERE, "properties.jsonl")):
         pid = json.loads(l)["id"]
         pf = os.path.join(HERE, "coq", "Props", pid + ".v")
-        nth = len(re.findall(r"(?m)^\s*(?:Theorem|Lemma|Corollary)\s+\w+", open(pf).read())) if os.path.exists(pf) else 0
+        nth = len(re.findall(r"(?m)^\s*(?:Theorem|Lemma|Corollary|Example)\s+\w+", open(pf).read())) if os.path.exists(pf) else 0
         cl = 0
         for sub in ("Models", "Proofs", "Props"):
             for f in glob.glob(os.path.join(HERE, "coq", sub, pid + "*.v")):
@@ -68,7 +68,12 @@ def status():
         df = os.path.join(HERE, "harness", "drivers", pid + ".py")
         dl = sum(1 for _ in open(df)) if os.path.exists(df) else 0
         ties = "T+C" if pid in ("C20", "C06", "C11") and glob.glob(os.path.join(HERE, "harness", "translators", "*.py")) else "C"
-        rows.append("| %s | %s | %d | %d | %d | %s |" % (pid, "yes" if pid in claimed else "no", nth, cl, dl, ties))
+        ev = os.path.join(HERE, "evidence", pid + ".json")
+        evs = "-"
+        if os.path.exists(ev):
+            e = json.load(open(ev))
+            evs = "%s / %s / %s" % (e["coverage"].get("evaluations"), e["coverage"].get("distinct_nontrivial"), e.get("wall_s"))
+        rows.append("| %s | %s | %d | %d | %d | %s | %s |" % (pid, "yes" if pid in claimed else "no", nth, cl, dl, ties, evs))
     return "\n".join(rows)
 
 
